@@ -2,6 +2,7 @@ package c17
 
 import (
 	"bytes"
+	"errors"
 	"fmt"
 	"sort"
 	"testing"
@@ -44,7 +45,7 @@ func genRGCase(t *rapid.T) RGCase {
 	c.Plan = gen.RowsAtLeast(t, &c.Schema, 6, 1, 120, vo)
 	c.Prior = gen.RowsAtLeast(t, &c.Schema, 6, 1, 120, vo)
 	c.Opts = gen.WriterOptions(t, cols, gen.OptsBias{SmallPages: true, NoBloom: true, EncFor: pq.ValidEncodings})
-	c.Opts.Pool, c.Opts.MaxRows = "", 0
+	c.Opts.Pool, c.Opts.MaxRows = "", int64([]int{0, 0, 5, 16}[rapid.IntRange(0, 3).Draw(t, "maxrows")])
 	parts := func(label string) []RGPart {
 		var ps []RGPart
 		for n := rapid.IntRange(1, 4).Draw(t, label+"n"); n > 0; n-- {
@@ -56,6 +57,8 @@ func genRGCase(t *rapid.T) RGCase {
 	c.Close = rapid.IntRange(0, 3).Draw(t, "close") != 0
 	return c
 }
+
+var errRowCount = errors.New("row count")
 
 func (c RGCase) assemble(w *parquet.Writer, schema *parquet.Schema, rows []parquet.Row, parts []RGPart) error {
 	sorting := parquet.SortingRowGroupConfig(parquet.SortingColumns(parquet.Ascending("akey")))
@@ -88,8 +91,10 @@ func (c RGCase) assemble(w *parquet.Writer, schema *parquet.Schema, rows []parqu
 			if p.Kind == "sorted-buffer" {
 				sort.Stable(b)
 			}
-			if _, err := w.WriteRowGroup(b); err != nil {
+			if k, err := w.WriteRowGroup(b); err != nil {
 				return err
+			} else if k != int64(n) {
+				return fmt.Errorf("%w: WriteRowGroup of a buffer of %d rows returned %d, nil", errRowCount, n, k)
 			}
 		default:
 			var tmp bytes.Buffer
@@ -110,8 +115,10 @@ func (c RGCase) assemble(w *parquet.Writer, schema *parquet.Schema, rows []parqu
 				return err
 			}
 			for _, rg := range f.RowGroups() {
-				if _, err := w.WriteRowGroup(rg); err != nil {
+				if k, err := w.WriteRowGroup(rg); err != nil {
 					return err
+				} else if k != rg.NumRows() {
+					return fmt.Errorf("%w: WriteRowGroup of a row group of %d rows returned %d, nil", errRowCount, rg.NumRows(), k)
 				}
 			}
 		}
@@ -169,12 +176,18 @@ func runRGCase(c RGCase, o *kit.Obs) (fl *kit.Failure) {
 		return out.Bytes(), nil
 	}
 	fresh, err := write(false)
+	if errors.Is(err, errRowCount) {
+		return kit.Failf("c17/rowgroups/returned-count", "%v (MaxRowsPerRowGroup %d)", err, c.Opts.MaxRows)
+	}
 	if err != nil {
 		o.Rejected()
 		o.Class("write-error")
 		return nil
 	}
 	reused, err := write(true)
+	if errors.Is(err, errRowCount) {
+		return kit.Failf("c17/rowgroups/returned-count", "%v (MaxRowsPerRowGroup %d)", err, c.Opts.MaxRows)
+	}
 	if err != nil {
 		return kit.Failf("c17/rowgroups/reused-write-error", "the reused writer failed where the fresh one succeeded: %v", err)
 	}
